@@ -229,10 +229,13 @@ func checkCase(c Case) evid.Outcome {
 		if mustPanic(func() { a.f.URLPath("no-such-route", "a", "1") }) == nil {
 			return evid.Fail("unknown-name", "URLPath of an unknown name did not panic")
 		}
-		// the same through a request's context: Recovery is not installed, the
-		// panic comes out of ServeHTTP
-		a.probe = func(ctx flamego.Context) { ctx.URLPath("no-such-route", "a", "1") }
-		escaped := mustPanic(func() { a.f.ServeHTTP(httptest.NewRecorder(), rt.NewRequest("GET", "/zz-probe", nil)) })
+		// the same through a request's context (caught inside the handler: what
+		// ServeHTTP does with a handler's panic is nobody's business here)
+		var escaped interface{}
+		a.probe = func(ctx flamego.Context) {
+			escaped = mustPanic(func() { ctx.URLPath("no-such-route", "a", "1") })
+		}
+		a.f.ServeHTTP(httptest.NewRecorder(), rt.NewRequest("GET", "/zz-probe", nil))
 		a.probe = nil
 		if escaped == nil {
 			return evid.Fail("unknown-name", "Context.URLPath of an unknown name did not panic")
